@@ -138,22 +138,32 @@ func drawAsync(t *rapid.T, n int) map[int]bool {
 func (c *caseRun) execute(t *rapid.T) {
 	cleanTraceDir()
 	var wg sync.WaitGroup
+	cancel := make(chan struct{})
+	var once sync.Once
 	for _, pr := range c.runs {
 		pr := pr
 		wg.Add(1)
 		go func() {
 			defer wg.Done()
 			pr.res = prog.Execute(pr.p, pr.insts, prog.Options{Self: pr.self, Name: pr.name, ProgID: pr.id, Async: pr.async,
-				NoRecorder: pr.fileMode, StickyPlan: len(c.runs) > 1, RunTimeout: 90 * time.Second})
+				NoRecorder: pr.fileMode, ByControlFlow: true, StickyPlan: len(c.runs) > 1, RunTimeout: 90 * time.Second, Cancel: cancel})
+			if pr.res.Failure != "" {
+				once.Do(func() { close(cancel) }) // the others may be waiting for values that will never come
+			}
 		}()
 	}
 	wg.Wait()
 	for _, pr := range c.runs {
-		if f := pr.res.Failure; f != "" {
+		if f := pr.res.Failure; f != "" && !strings.Contains(f, "cancelled (a peer had already failed)") {
 			if strings.HasPrefix(f, "INCONCLUSIVE") {
 				t.Fatalf("%s\n%s\n%s", f, c.render(), c.history())
 			}
-			t.Fatalf("the run itself went wrong before the trace could be judged (atomicity, C01's business, or the harness): %s\nprograms:\n%s\nhistory:\n%s", f, c.render(), c.history())
+			t.Fatalf("the run itself failed before the trace could be judged (a panic in the runtime, atomicity — C01's business —, or the harness): %s\nprograms:\n%s\nhistory:\n%s", f, c.render(), c.history())
+		}
+	}
+	for _, pr := range c.runs {
+		if f := pr.res.Failure; f != "" {
+			t.Fatalf("%s\n%s\n%s", f, c.render(), c.history())
 		}
 		if !pr.res.Finished {
 			t.Fatalf("INCONCLUSIVE: archetype %s self=%s did not reach Done\n%s\n%s", pr.name, pr.self, c.render(), c.history())
